@@ -461,7 +461,28 @@ theorem ref_cmd (fuel : Nat) (ih : Ref fuel) :
   | tick c k =>
     simp only [execCmd, specCmd]
     split <;> exact relS_finish' _ st0 _ _ rfl
-  | fundef name body => simp only [execCmd, specCmd]; exact relS_finish' _ st0 _ _ rfl
+  | fundef name body =>
+    simp only [execCmd, specCmd]
+    cases s.roFuncs.contains name <;> simp only [Bool.false_eq_true, ite_true, ite_false] <;>
+      exact relS_finish' _ st0 _ _ rfl
+  | setParams n => simp only [execCmd, specCmd]; exact relS_finish' _ st0 _ _ rfl
+  | freeze name =>
+    simp only [execCmd, specCmd]
+    cases lookupFn s.funcs name <;> exact relS_finish' _ st0 _ _ rfl
+  | forRo values =>
+    simp only [execCmd, specCmd]
+    split
+    · exact relS_mk ⟨st0, rfl⟩
+    · rw [expansionError_eq s st0]
+      exact relS_mk ⟨st0, rfl⟩
+  | forPos body =>
+    simp only [execCmd, specCmd]
+    split
+    · exact relS_mk ⟨st0, rfl⟩
+    · have hf := ih.for_ (s.push .loop) { s with stack := st0 } s.params body s.stack ⟨st0, rfl⟩ rfl
+      obtain ⟨s1, r, st1, hx, hy⟩ := relS_cases hf
+      rw [hx, hy]
+      exact relS_mk (sbs_pop ⟨st1, rfl⟩)
   | expErr =>
     simp only [execCmd, specCmd]
     rw [expansionError_eq s st0]
@@ -479,7 +500,7 @@ theorem ref_cmd (fuel : Nat) (ih : Ref fuel) :
   | specialErr w st => simp only [execCmd, specCmd]; exact relS_finish' _ st0 _ _ rfl
   | trapExit body => simp only [execCmd, specCmd]; exact relS_finish' _ st0 _ _ rfl
   | group body => simp only [execCmd, specCmd]; exact ih.list s _ body ⟨st0, rfl⟩
-  | call name =>
+  | call name nargs =>
     simp only [execCmd, specCmd, classify_stack]
     cases hcl : classify s name with
     | specialColon => exact relS_finish' _ st0 _ _ rfl
@@ -488,8 +509,9 @@ theorem ref_cmd (fuel : Nat) (ih : Ref fuel) :
     | status n => exact relS_finish' _ st0 _ _ rfl
     | function body =>
       simp only
-      have b1 := (bal fuel).cmd s body
-      obtain ⟨s1, r, st1, hx, hy⟩ := relS_cases (ih.cmd s { s with stack := st0 } body ⟨st0, rfl⟩)
+      have b1 := (bal fuel).cmd { s with params := nargs } body
+      obtain ⟨s1, r, st1, hx, hy⟩ :=
+        relS_cases (ih.cmd { s with params := nargs } { s with stack := st0, params := nargs } body ⟨st0, rfl⟩)
       rw [hx] at b1
       rw [hx, hy]
       simp only at b1
